@@ -60,7 +60,7 @@ def run_shard(desc, R, tier):
     elif desc[0] == 'gen':
         _, N, cplx = desc
         fam = (A.gen_cplx(N) + A.tones_cplx(N)) if cplx else (A.gen_real(N) + A.tones_real(N) + A.pcm(N) + A.pcm64(N))
-        fam = fam + A.scaled(fam) + A.strided(fam)
+        fam = fam + A.scaled(fam) + A.strided(fam) + A.single(fam)
         for name, x in fam:
             for p in range(1, min(N // 2, 20) + 1):
                 eval_point({'kind': 'ls', 'x': x, 'p': p, 'name': name}, R)
@@ -115,6 +115,10 @@ def eval_point(pt, R):
     N = len(x)
     cplx = np.iscomplexobj(x)
     dt = 'complex' if cplx else ('narrow-int' if x.dtype.kind in 'iu' else 'real')
+    single = A.is_single(x)
+    if single:
+        dt += '-single'
+    u = 3e4 if single else 1.0        # float32 / complex64 records may be processed in single precision (unit round-off 6e-8 instead of 1.1e-16 ... judged 3e4 x looser than 1e-9)
     for meth, pre in (('covariance', 'cov'), ('modified', 'mod')):
         aref, emin, cond, X = rar.ls_ar(x, p, meth)
         ptm = dict(pt, method=meth)
@@ -123,8 +127,12 @@ def eval_point(pt, R):
             R.point(ptm, indomain=False)
             R.skip('gram_ill_conditioned')
             continue
+        if single and cond > 1e3:
+            R.point(ptm, indomain=False)
+            R.skip('gram_ill_conditioned_for_single_precision')
+            continue
         R.point(ptm)
-        tol = 1e-9 * max(cond, 1.0)
+        tol = 1e-9 * u * max(cond, 1.0)
         Xc, x1 = X[:, 1:], X[:, 0]
         energy = float(np.real(np.vdot(x1, x1)))
         fn = spectrum.arcovar if meth == 'covariance' else spectrum.modcovar
@@ -139,7 +147,7 @@ def eval_point(pt, R):
                 g = np.conj(Xc.T) @ (x1 + Xc @ a)
                 R.check(float(np.max(np.abs(g))) <= tol * max(energy, 1e-300) * max(1.0, float(np.max(np.abs(Xc)))) , pre + '_normal', feats, ptm, g, 0,
                         'residual not orthogonal to the regressors', outs=(a, e))
-                R.check(close(a, aref, tol, 1e-10), pre + '_ls', feats, ptm, a, aref, 'coefficients != dense least squares on the reference data matrix',
+                R.check(close(a, aref, tol, 1e-10 * u), pre + '_ls', feats, ptm, a, aref, 'coefficients != dense least squares on the reference data matrix',
                         err=relerr(a, aref))
                 R.check(abs(e - emin) <= tol * max(energy, 1e-300), pre + '_err', feats, ptm, e, emin, 'returned error != minimum energy')
             else:
@@ -147,7 +155,7 @@ def eval_point(pt, R):
         except Exception as ex:
             R.viol(pre + '_ls', dict(feats, exc=type(ex).__name__), ptm, repr(ex), aref, 'estimator raised inside its domain')
         # fast (Marple) forms: same coefficients, minimum per sample
-        if emin <= 1e-9 * energy:
+        if emin <= 1e-9 * u * energy:
             R.skip('marple_zero_residual')
         else:
             R.calls()
@@ -160,7 +168,7 @@ def eval_point(pt, R):
                     out = modcovar_marple(x, p)
                     am, pm = np.asarray(out[0])[:p], out[1]
                     per = emin / (2.0 * (N - p))
-                R.check(close(am, aref, 1e-7 * max(cond, 1.0), 1e-9) and abs(pm - per) <= 1e-7 * max(cond, 1.0) * max(per, energy / N * 1e-9), pre + '_marple', feats, ptm,
+                R.check(close(am, aref, 1e-7 * min(u, 1e3) * max(cond, 1.0), 1e-9 * u) and abs(pm - per) <= 1e-7 * min(u, 1e3) * max(cond, 1.0) * max(per, energy / N * (1e-2 if single else 1e-9)), pre + '_marple', feats, ptm,
                         [am, pm], [aref, per], 'fast recursion: coefficients or per-sample minimum differ from least squares', outs=(am, pm))
             except Exception as ex:
                 R.viol(pre + '_marple', dict(feats, exc=type(ex).__name__), ptm, repr(ex), [aref, emin], 'fast recursion raised inside its domain')
@@ -169,7 +177,7 @@ def eval_point(pt, R):
             try:
                 o = (spectrum.pcovar if meth == 'covariance' else spectrum.pmodcovar)(x, p)
                 o()
-                R.check(close(np.asarray(o.ar), aref, tol, 1e-10), 'class', dict(feats, cls=meth), ptm, o.ar, aref, 'class .ar != least-squares coefficients')
+                R.check(close(np.asarray(o.ar), aref, tol, 1e-10 * u), 'class', dict(feats, cls=meth), ptm, o.ar, aref, 'class .ar != least-squares coefficients')
                 if getattr(o, 'rho', None) is not None:
                     per = emin / (N - p) if meth == 'covariance' else emin / (2.0 * (N - p))
                     R.check(abs(o.rho - per) <= tol * max(energy, 1e-300) / (N - p), 'class', dict(feats, cls=meth, attr='rho'), ptm, o.rho, per,
